@@ -10,6 +10,7 @@ is about, on every model state (all `uint64` values of the three numeric fields,
 `current++` / `current--` included).  A semantic change of the two Go methods changes the generated
 definitions and these proofs stop checking.
 -/
+set_option linter.unusedSimpArgs false
 namespace Agd.Tie.TrC18
 open Agd.Gen.TrC18 Agd.TrPrelude Agd.ConnLimit
 
@@ -93,6 +94,384 @@ theorem conn_released_once (c : S_connlimiter_limitConn) (won : Bool) (e : Optio
     (won = false → r.1 = some "net.ErrClosed" ∧ "decrement" ∉ names r.2 ∧ "Close" ∉ names r.2) ∧
     (won = true → r.1 = e ∧ (names r.2).count "decrement" = 1 ∧ (names r.2).count "Close" = 1) := by
   cases won <;> simp [conn_Close, names]
+
+
+/-! ## The TCP serving path of `dnsserver.ServerDNS` (translator round 3)
+
+`serveTCP`, `acceptTCPConn`, `serveTCPConn`, `acceptTCPMsg` (and the task closure it submits) and
+`serveTCPMessage` are translated with every library object (listener, connection, wait groups, worker
+pool, semaphore) as traced opaque calls.  The two `for s.isStarted() { … }` loops are `goFor` loops: the
+theorems hold for every iteration bound `fuel` and for every *sequence* of results of the calls made in
+the loop (`started i`, `acc i` are the results in iteration `i`). -/
+
+def cnt (n : String) (tr : List (String × List String)) : Nat := (names tr).count n
+
+/-- `a` occurs, and the first `b` comes after the first `a`. -/
+def before (a b : String) (tr : List (String × List String)) : Prop :=
+  a ∈ names tr ∧ (names tr).idxOf a < (names tr).idxOf b
+
+/-- Names of the calls `serveTCPConn` makes before it leaves. -/
+def connBody : List String := ["NewChanSemaphore", "handshake", "isStarted", "acceptTCPMsg", "logReadErr"]
+
+/-- What `serveTCPConn` does on every way out: recover, wait for the connection's in-flight messages,
+close the connection, forget it (under the lock), tell the server's wait group. -/
+def connExit : List String := ["handlePanicAndRecover", "Wait", "OnCloserError", "Lock", "delete", "Unlock", "Done"]
+
+def connOk (tr : List (String × List String)) : Prop :=
+  ∃ pre, names tr = pre ++ connExit ∧ ∀ n ∈ pre, n ∈ connBody
+
+private theorem names_append (a b : List (String × List String)) : names (a ++ b) = names a ++ names b := by
+  simp [names]
+
+private theorem connOk_exit (tr : List (String × List String)) (h : ∀ n ∈ names tr, n ∈ connBody) :
+    connOk (tr ++ [("handlePanicAndRecover", ["_"])] ++ [("Wait", [])] ++ [("OnCloserError", ["_", toString (3 : Int)])] ++
+      [("Lock", [])] ++ [("delete", ["_", "_"])] ++ [("Unlock", [])] ++ [("Done", [])]) := by
+  refine ⟨names tr, ?_, h⟩
+  simp [names, connExit]
+
+private theorem body_snoc (tr : List (String × List String)) (e : String × List String)
+    (h : ∀ n ∈ names tr, n ∈ connBody) (he : e.1 ∈ connBody) : ∀ n ∈ names (tr ++ [e]), n ∈ connBody := by
+  intro n hn
+  simp only [names, List.map_append, List.map_cons, List.map_nil, List.mem_append, List.mem_singleton] at hn
+  rcases hn with hn | hn
+  · exact h n hn
+  · rw [hn]; exact he
+
+/-- Discharges "only calls of the serving loop so far" / "… followed by the exit sequence" goals. -/
+local macro "conn_tac" : tactic =>
+  `(tactic| repeat' (first | assumption | (simp [connBody, names]; done) | apply connOk_exit | apply body_snoc))
+
+/-- The loop invariant / exit condition of the serving loop. -/
+private def connQ : (Option String × Int × List (String × List String)) ⊕ List (String × List String) → Prop
+  | .inl st => ∀ n ∈ names st.2.2, n ∈ connBody
+  | .inr r => connOk r
+
+/-- **Every way out of `serveTCPConn` closes the connection exactly once**, after waiting for the
+messages still being processed, and releases the server's wait group last — for every configuration,
+every handshake result, every iteration bound and every sequence of `isStarted` / `acceptTCPMsg`
+results: the trace is calls of the serving loop followed by the exit sequence `connExit`. -/
+theorem serveTCPConn_exit (s : S_dnsserver_ServerDNS) (sem : AbsPtr) (hs : Option String) (fuel : Nat)
+    (started : Nat → Bool) (acc : Nat → Option String) (tr : List (String × List String))
+    (h : serveTCPConn s sem hs fuel started acc = some tr) : connOk tr := by
+  unfold serveTCPConn at h
+  dsimp only at h
+  split at h <;> split at h
+  · cases h
+    conn_tac
+  · split at h
+    · cases h
+    · rename_i r heq
+      cases h
+      refine goFor_inv _ (fun _ st => ∀ n ∈ names st.2.2, n ∈ connBody) connQ fuel _ (by conn_tac) ?_ _ heq
+      intro i st hp
+      obtain ⟨e, t, tr1⟩ := st
+      dsimp only
+      by_cases h1 : started i = true <;> by_cases h2 : (acc i).isSome = true <;>
+        simp only [h1, h2, ↓reduceIte, connQ] <;> conn_tac
+    · rename_i st heq
+      obtain ⟨e, t, tr1⟩ := st
+      cases h
+      have hq : connQ (.inl (e, t, tr1)) := by
+        refine goFor_inv _ (fun _ st => ∀ n ∈ names st.2.2, n ∈ connBody) connQ fuel _ (by conn_tac) ?_ _ heq
+        intro i st hp
+        obtain ⟨e, t, tr1⟩ := st
+        dsimp only
+        by_cases h1 : started i = true <;> by_cases h2 : (acc i).isSome = true <;>
+          simp only [h1, h2, ↓reduceIte, connQ] <;> conn_tac
+      have hq' : ∀ n ∈ names tr1, n ∈ connBody := hq
+      conn_tac
+  · cases h
+    conn_tac
+  · split at h
+    · cases h
+    · rename_i r heq
+      cases h
+      refine goFor_inv _ (fun _ st => ∀ n ∈ names st.2.2, n ∈ connBody) connQ fuel _ (by conn_tac) ?_ _ heq
+      intro i st hp
+      obtain ⟨e, t, tr1⟩ := st
+      dsimp only
+      by_cases h1 : started i = true <;> by_cases h2 : (acc i).isSome = true <;>
+        simp only [h1, h2, ↓reduceIte, connQ] <;> conn_tac
+    · rename_i st heq
+      obtain ⟨e, t, tr1⟩ := st
+      cases h
+      have hq : connQ (.inl (e, t, tr1)) := by
+        refine goFor_inv _ (fun _ st => ∀ n ∈ names st.2.2, n ∈ connBody) connQ fuel _ (by conn_tac) ?_ _ heq
+        intro i st hp
+        obtain ⟨e, t, tr1⟩ := st
+        dsimp only
+        by_cases h1 : started i = true <;> by_cases h2 : (acc i).isSome = true <;>
+          simp only [h1, h2, ↓reduceIte, connQ] <;> conn_tac
+      have hq' : ∀ n ∈ names tr1, n ∈ connBody := hq
+      conn_tac
+
+private theorem count_body (n : String) (hn : n ∉ connBody) : ∀ pre : List String, (∀ m ∈ pre, m ∈ connBody) → pre.count n = 0
+  | [], _ => rfl
+  | m :: pre, h => by
+    have hm : m ∈ connBody := h m (by simp)
+    have : m ≠ n := fun e => hn (e ▸ hm)
+    rw [List.count_cons_of_ne (by simpa using this)]
+    exact count_body n hn pre (fun k hk => h k (by simp [hk]))
+
+/-- Closed exactly once, after exactly one `Wait`; one `Done`, and it is the last call. -/
+theorem serveTCPConn_closes_once (s : S_dnsserver_ServerDNS) (sem : AbsPtr) (hs : Option String) (fuel : Nat)
+    (started : Nat → Bool) (acc : Nat → Option String) (tr : List (String × List String))
+    (h : serveTCPConn s sem hs fuel started acc = some tr) :
+    cnt "OnCloserError" tr = 1 ∧ cnt "Wait" tr = 1 ∧ cnt "Done" tr = 1 ∧ cnt "delete" tr = 1 ∧
+      (names tr).getLast? = some "Done" ∧
+      ∃ pre, names tr = pre ++ "Wait" :: "OnCloserError" :: ["Lock", "delete", "Unlock", "Done"] := by
+  obtain ⟨pre, hpre, hbody⟩ := serveTCPConn_exit s sem hs fuel started acc tr h
+  have c1 := count_body "OnCloserError" (by decide) pre hbody
+  have c2 := count_body "Wait" (by decide) pre hbody
+  have c3 := count_body "Done" (by decide) pre hbody
+  have c4 := count_body "delete" (by decide) pre hbody
+  unfold cnt
+  rw [hpre]
+  refine ⟨?_, ?_, ?_, ?_, ?_, pre ++ ["handlePanicAndRecover"], ?_⟩
+  · rw [List.count_append, c1]; decide
+  · rw [List.count_append, c2]; decide
+  · rw [List.count_append, c3]; decide
+  · rw [List.count_append, c4]; decide
+  · simp [connExit]
+  · simp [connExit]
+
+/-- The serving loop ends — the result is not `none`, in particular nothing panics — as soon as the bound
+exceeds the number of an iteration in which the server is no longer started. -/
+theorem serveTCPConn_terminates (s : S_dnsserver_ServerDNS) (sem : AbsPtr) (hs : Option String) (fuel k : Nat)
+    (started : Nat → Bool) (acc : Nat → Option String) (hk : k < fuel) (hstop : started k = false) :
+    serveTCPConn s sem hs fuel started acc ≠ none := by
+  unfold serveTCPConn
+  dsimp only
+  split <;> split
+  · simp
+  · have := goForFrom_terminates (σ := (Option String × Int × List (String × List String))) (ρ := List (String × List String))
+    split
+    · rename_i heq
+      exact absurd heq (by
+        unfold goFor
+        apply goForFrom_terminates _ k fuel 0 _ hk
+        intro a b
+        simp [hstop])
+    · simp
+    · simp
+  · simp
+  · split
+    · rename_i heq
+      exact absurd heq (by
+        unfold goFor
+        apply goForFrom_terminates _ k fuel 0 _ hk
+        intro a b
+        simp [hstop])
+    · simp
+    · simp
+
+private def preQ (tr0 : List (String × List String)) :
+    (Option String × Int × List (String × List String)) ⊕ List (String × List String) → Prop
+  | .inl st => ∃ suf, st.2.2 = tr0 ++ suf
+  | .inr r => ∃ suf, r = tr0 ++ suf
+
+/-- The per-connection semaphore: when the pipeline limit is enabled the first thing `serveTCPConn` does is
+make a semaphore of exactly `MaxPipelineCount` tokens, then the handshake under the read timeout; when it is
+disabled the handshake comes first (no semaphore is made before serving starts). -/
+theorem serveTCPConn_semaphore (s : S_dnsserver_ServerDNS) (sem : AbsPtr) (hs : Option String) (fuel : Nat)
+    (started : Nat → Bool) (acc : Nat → Option String) (tr : List (String × List String))
+    (h : serveTCPConn s sem hs fuel started acc = some tr) :
+    (s.conf.MaxPipelineEnabled = true → ∃ suf, tr = ("NewChanSemaphore", [toString s.conf.MaxPipelineCount]) ::
+        ("handshake", ["_", toString s.conf.ReadTimeout]) :: suf) ∧
+    (s.conf.MaxPipelineEnabled = false → ∃ suf, tr = ("handshake", ["_", toString s.conf.ReadTimeout]) :: suf) := by
+  unfold serveTCPConn at h
+  dsimp only at h
+  have step : ∀ (tr0 : List (String × List String)) (f : Nat → (Option String × Int × List (String × List String)) →
+      Step (Option String × Int × List (String × List String)) (List (String × List String))) (e0 : Option String) (t0 : Int) r,
+      (∀ i st, (∃ suf, st.2.2 = tr0 ++ suf) → preQ tr0 (match f i st with | .next s' => .inl s' | .brk s' => .inl s' | .ret r => .inr r)) →
+      goFor fuel (e0, t0, tr0) f = some r → preQ tr0 r := by
+    intro tr0 f e0 t0 r hf hg
+    refine goFor_inv f (fun _ st => ∃ suf, st.2.2 = tr0 ++ suf) (preQ tr0) fuel _ ⟨[], by simp⟩ ?_ r hg
+    intro i st hp
+    have := hf i st hp
+    cases hfi : f i st <;> rw [hfi] at this <;> exact this
+  have body : ∀ (tr0 : List (String × List String)) (i : Nat) (st : Option String × Int × List (String × List String)),
+      (∃ suf, st.2.2 = tr0 ++ suf) → ∀ l : List (String × List String), ∃ suf, st.2.2 ++ l = tr0 ++ suf := by
+    intro tr0 i st ⟨suf, hs⟩ l
+    exact ⟨suf ++ l, by rw [hs, List.append_assoc]⟩
+  split at h <;> split at h
+  · cases h
+    refine ⟨fun _ => ⟨_, by simp only [List.nil_append, List.append_assoc, List.cons_append]; rfl⟩, fun hc => ?_⟩
+    simp_all
+  · rename_i hen _
+    refine ⟨fun _ => ?_, fun hc => by simp_all⟩
+    split at h
+    · cases h
+    · rename_i r heq
+      cases h
+      have := step _ _ _ _ _ (by
+        intro i st hp
+        by_cases h1 : started i = true <;> by_cases h2 : (acc i).isSome = true <;>
+          simp only [h1, h2, ↓reduceIte, preQ, List.append_assoc] <;> exact body _ i st hp _) heq
+      obtain ⟨suf, hsuf⟩ := this
+      exact ⟨suf, by rw [hsuf]; rfl⟩
+    · rename_i st heq
+      cases h
+      have := step _ _ _ _ _ (by
+        intro i st hp
+        by_cases h1 : started i = true <;> by_cases h2 : (acc i).isSome = true <;>
+          simp only [h1, h2, ↓reduceIte, preQ, List.append_assoc] <;> exact body _ i st hp _) heq
+      obtain ⟨suf, hsuf⟩ := this
+      exact ⟨suf ++ _, by rw [hsuf]; simp only [List.nil_append, List.append_assoc, List.cons_append]; rfl⟩
+  · cases h
+    refine ⟨fun hc => by simp_all, fun _ => ⟨_, by simp only [List.nil_append, List.append_assoc, List.cons_append]; rfl⟩⟩
+  · rename_i hen _
+    refine ⟨fun hc => by simp_all, fun _ => ?_⟩
+    split at h
+    · cases h
+    · rename_i r heq
+      cases h
+      have := step _ _ _ _ _ (by
+        intro i st hp
+        by_cases h1 : started i = true <;> by_cases h2 : (acc i).isSome = true <;>
+          simp only [h1, h2, ↓reduceIte, preQ, List.append_assoc] <;> exact body _ i st hp _) heq
+      obtain ⟨suf, hsuf⟩ := this
+      exact ⟨suf, by rw [hsuf]; rfl⟩
+    · rename_i st heq
+      cases h
+      have := step _ _ _ _ _ (by
+        intro i st hp
+        by_cases h1 : started i = true <;> by_cases h2 : (acc i).isSome = true <;>
+          simp only [h1, h2, ↓reduceIte, preQ, List.append_assoc] <;> exact body _ i st hp _) heq
+      obtain ⟨suf, hsuf⟩ := this
+      exact ⟨suf ++ _, by rw [hsuf]; simp only [List.nil_append, List.append_assoc, List.cons_append]; rfl⟩
+
+/-- A server with a pipeline limit of 4, read timeout 2 s and idle timeout 30 s (fields the functions read). -/
+def srv4 : S_dnsserver_ServerDNS where
+  ServerBase := none
+  conf := {
+    ConfigBase := { Network := "", Name := "t", Addr := "" }
+    ReadTimeout := 2
+    WriteTimeout := 2
+    TCPIdleTimeout := 30
+    MaxPipelineCount := 4
+    UDPSize := 0
+    TCPSize := 0
+    MaxUDPRespSize := 0
+    MaxPipelineEnabled := true }
+
+/-- Non-vacuity: a connection that delivers two messages and then fails to read (EOF): three reads (the
+first with the read timeout, then the idle timeout), one close. -/
+example : ∃ tr, serveTCPConn srv4 true none 5 (fun _ => true) (fun i => if i < 2 then none else some "EOF") = some tr ∧
+    cnt "acceptTCPMsg" tr = 3 ∧ cnt "OnCloserError" tr = 1 ∧
+    tr.filter (·.1 == "acceptTCPMsg") = [("acceptTCPMsg", ["_", "_", "_", "2", "_"]), ("acceptTCPMsg", ["_", "_", "_", "30", "_"]),
+      ("acceptTCPMsg", ["_", "_", "_", "30", "_"])] := ⟨_, rfl, by decide, by decide, by decide⟩
+
+/-- … and a bound that is too small for that run gives `none`. -/
+example : serveTCPConn srv4 true none 2 (fun _ => true) (fun i => if i < 2 then none else some "EOF") = none := by decide
+
+/-! ### One message: `acceptTCPMsg`, the task it submits, `serveTCPMessage` -/
+
+/-- `acceptTCPMsg` never panics, and takes a semaphore token before the message is handed to the worker
+pool: a failed read returns that error without touching semaphore, wait group or pool; a failed `Acquire`
+returns an error and neither counts the message in the wait group nor submits it; otherwise exactly one
+`Acquire`, then `wg.Add(1)`, then exactly one `Submit`, whose error is returned. -/
+theorem acceptTCPMsg_acquire_then_submit (s : S_dnsserver_ServerDNS) (timeout : Int) (rd : AbsPtr × Option String)
+    (cs : AbsPtr × Bool) (sni : String) (rc : AbsPtr × AbsPtr) (cx : AbsPtr) (acq sub : Option String) :
+    ∃ e tr, acceptTCPMsg s timeout rd cs sni rc cx acq sub = some (e, tr) ∧
+      (tr.head? = some ("readTCPMsg", ["_", toString timeout])) ∧
+      (rd.2 ≠ none → e = rd.2 ∧ cnt "Acquire" tr = 0 ∧ cnt "Add" tr = 0 ∧ cnt "Submit" tr = 0) ∧
+      (rd.2 = none → acq ≠ none → e ≠ none ∧ cnt "Acquire" tr = 1 ∧ cnt "Add" tr = 0 ∧ cnt "Submit" tr = 0) ∧
+      (rd.2 = none → acq = none → e = sub ∧ cnt "Acquire" tr = 1 ∧ cnt "Add" tr = 1 ∧ cnt "Submit" tr = 1 ∧
+        before "Acquire" "Add" tr ∧ before "Add" "Submit" tr) := by
+  obtain ⟨p, rde⟩ := rd
+  obtain ⟨c, ok⟩ := cs
+  cases rde <;> cases acq <;> cases ok <;> exact ⟨_, _, rfl, by simp [cnt, names, before] <;> decide⟩
+
+/-- The submitted task: the message is served exactly once and the token is given back exactly once,
+after serving; the request context is cancelled. -/
+theorem acceptTCPMsg_task_releases_once (s : S_dnsserver_ServerDNS) (timeout : Int) :
+    let tr := acceptTCPMsg_task s timeout
+    cnt "serveTCPMessage" tr = 1 ∧ cnt "Release" tr = 1 ∧ cnt "reqCancel" tr = 1 ∧ before "serveTCPMessage" "Release" tr := by
+  simp [acceptTCPMsg_task, cnt, names, before] <;> decide
+
+/-- `serveTCPMessage`: the connection is closed by the worker iff nothing was written (and then once);
+the connection's wait group is released exactly once, last, on both paths. -/
+theorem serveTCPMessage_close_iff_unwritten (s : S_dnsserver_ServerDNS) (buf : List Int) (written : Bool) :
+    let tr := serveTCPMessage s buf written
+    cnt "OnCloserError" tr = (if written then 0 else 1) ∧ cnt "serveDNS" tr = 1 ∧ cnt "Done" tr = 1 ∧
+      (names tr).getLast? = some "Done" ∧ before "serveDNS" "Done" tr := by
+  cases written <;> simp [serveTCPMessage, cnt, names, before] <;> decide
+
+/-! ### The listener side: `acceptTCPConn`, `serveTCP` -/
+
+/-- The store into the map of tracked connections under one name, whatever the key variable is called. -/
+def trk (tr : List (String × List String)) : List (String × List String) :=
+  tr.map fun e => (if goHasPrefix e.1 "set s.tcpConns[" then "track" else e.1, e.2)
+
+/-- A connection taken from the listener is recorded (under the lock), counted in the server's wait group
+and submitted exactly once, in that order, and the pool's error is returned; a failed `Accept` does none of
+these (a non-critical error is swallowed, any other is returned). -/
+theorem acceptTCPConn_hands_over_once (s : S_dnsserver_ServerDNS) (a : AbsPtr × Option String) (nonCrit : Bool)
+    (sub : Option String) :
+    let r := acceptTCPConn s a nonCrit sub
+    (a.2 ≠ none → r.1 = (if nonCrit then none else a.2) ∧ cnt "Submit" r.2 = 0 ∧ cnt "Add" r.2 = 0 ∧
+      cnt "track" (trk r.2) = 0) ∧
+    (a.2 = none → r.1 = sub ∧ cnt "Submit" r.2 = 1 ∧ cnt "Add" r.2 = 1 ∧ cnt "track" (trk r.2) = 1 ∧
+      before "Lock" "track" (trk r.2) ∧ before "track" "Unlock" (trk r.2) ∧
+      before "Unlock" "Add" r.2 ∧ before "Add" "Submit" r.2) := by
+  obtain ⟨c, e⟩ := a
+  cases e <;> cases nonCrit <;> simp [acceptTCPConn, cnt, names, before, trk, goHasPrefix] <;> decide
+
+def lsnBody : List String := ["isStarted", "acceptTCPConn"]
+
+private theorem lsn_snoc (tr : List (String × List String)) (e : String × List String)
+    (h : ∀ n ∈ names tr, n ∈ lsnBody) (he : e.1 ∈ lsnBody) : ∀ n ∈ names (tr ++ [e]), n ∈ lsnBody := by
+  intro n hn
+  simp only [names, List.map_append, List.map_cons, List.map_nil, List.mem_append, List.mem_singleton] at hn
+  rcases hn with hn | hn
+  · exact h n hn
+  · rw [hn]; exact he
+
+/-- only accept-loop calls, then the deferred close of the listener -/
+def lsnOk (tr : List (String × List String)) : Prop :=
+  ∃ pre, names tr = pre ++ ["OnCloserError"] ∧ ∀ n ∈ pre, n ∈ lsnBody
+
+private theorem lsnOk_exit (tr : List (String × List String)) (a : List String) (h : ∀ n ∈ names tr, n ∈ lsnBody) :
+    lsnOk (tr ++ [("OnCloserError", a)]) := ⟨names tr, by simp [names], h⟩
+
+private def lsnQ : (Option String × List (String × List String)) ⊕ (Option String × List (String × List String)) → Prop
+  | .inl st => ∀ n ∈ names st.2, n ∈ lsnBody
+  | .inr r => lsnOk r.2
+
+local macro "lsn_tac" : tactic =>
+  `(tactic| repeat' (first | assumption | (simp [lsnBody, names]; done) | apply lsnOk_exit | apply lsn_snoc))
+
+/-- The accept loop `serveTCP` closes its listener exactly once, as its last action, on every way out —
+for every bound and every sequence of `isStarted` / `acceptTCPConn` results — and touches nothing but
+`isStarted` and `acceptTCPConn` before. -/
+theorem serveTCP_closes_listener_once (s : S_dnsserver_ServerDNS) (fuel : Nat) (started : Nat → Bool)
+    (acc : Nat → Option String) (started' : Nat → Bool) (e : Option String) (tr : List (String × List String))
+    (h : serveTCP s fuel started acc started' = some (e, tr)) : lsnOk tr := by
+  unfold serveTCP at h
+  dsimp only at h
+  split at h
+  · cases h
+  · rename_i r heq
+    cases h
+    refine goFor_inv _ (fun _ st => ∀ n ∈ names st.2, n ∈ lsnBody) lsnQ fuel _ (by lsn_tac) ?_ _ heq
+    intro i st hp
+    obtain ⟨e1, tr1⟩ := st
+    dsimp only
+    by_cases h1 : started i = true <;> by_cases h2 : (acc i).isSome = true <;> by_cases h3 : started' i = true <;>
+      simp only [h1, h2, h3, ↓reduceIte, lsnQ, Bool.not_true, Bool.not_false, Bool.false_eq_true] <;> lsn_tac
+  · rename_i st heq
+    obtain ⟨e1, tr1⟩ := st
+    cases h
+    have hq : lsnQ (.inl (e1, tr1)) := by
+      refine goFor_inv _ (fun _ st => ∀ n ∈ names st.2, n ∈ lsnBody) lsnQ fuel _ (by lsn_tac) ?_ _ heq
+      intro i st hp
+      obtain ⟨e1, tr1⟩ := st
+      dsimp only
+      by_cases h1 : started i = true <;> by_cases h2 : (acc i).isSome = true <;> by_cases h3 : started' i = true <;>
+        simp only [h1, h2, h3, ↓reduceIte, lsnQ, Bool.not_true, Bool.not_false, Bool.false_eq_true] <;> lsn_tac
+    have hq' : ∀ n ∈ names tr1, n ∈ lsnBody := hq
+    lsn_tac
 
 end Agd.Tie.TrC18
 
